@@ -88,6 +88,14 @@ def gen_programs(ctx, n, salt):
         out.append(("gen-self-shadow", rg.single(rg.self_shadow_program(
             ci, ii, r.choice(["total", "bumped"]), r.choice(["local", "param", "global"]), r.random() < 0.5), True)))
         out.append(("gen-self-use", rg.single(rg.self_use_program(ci, ii, r.random() < 0.5), True)))
+    # function literals inside redundant parentheses (see oracle_stream)
+    for ti in range(len(rg.PAREN_FN)):
+        for k in (0, 1, 2):
+            out.append(("gen-paren-fn", rg.single(rg.EXT_PRINT + rg.paren_fn_program(ti, k), False)))
+    for i in range(min(n, 40)):
+        r = vlib.rng(ctx.seed, "%s-parenfn-%d" % (salt, i))
+        p = rg.Gen(r, size=r.randint(1, 3)).program()
+        out.append(("gen-paren-fn", rg.single(rg.EXT_PRINT + rg.Render(rg.naming_distinct(p), fn_parens=1 + i % 2).program(p), False)))
     # block expressions that initialise module globals (see oracle_stream): all shadow variants and a sample of
     # the out-of-scope uses
     r = vlib.rng(ctx.seed, salt + "-ginit")
@@ -261,8 +269,15 @@ def oracle_stream(ctx, n, salt):
                       "leak": not rg.leaky_check(p, ns)})
         ns2 = rg.naming_shadow_safe(p, r)
         items.append({"kind": "pair", "p": p, "na": nd, "nb": ns2, "cls": "shadow-leak-safe", "leak": False})
-        for ss, k, b, lv in rg.plant_violations(p, r, 3):
-            items.append({"kind": "planted", "p": p, "na": nd, "at": (ss, k, b), "cls": "planted", "leak": lv})
+        for j, (ss, k, b, lv) in enumerate(rg.plant_violations(p, r, 3)):
+            items.append({"kind": "planted", "p": p, "na": nd, "at": (ss, k, b), "cls": "planted", "leak": lv,
+                          "fn_parens": (1 + i % 2) if j == 2 else 0})
+        if i % 2 == 0:
+            # every function literal inside 1-2 redundant parentheses: the same Lua
+            k = 1 + (i // 2) % 2
+            items.append({"kind": "files-pair", "cls": "paren-fn", "leak": False, "p": p,
+                          "a": {"/main.sy": rg.Render(nd).program(p)},
+                          "b": {"/main.sy": rg.Render(nd, fn_parens=k).program(p)}})
     if hasattr(rg, "nsfield_cases"):
         items += rg.nsfield_cases(ctx, n // 4 + 1, salt)
     # `x := f(x)`: the initialiser mentions an OUTER variable of the same name (plain, and with a function
@@ -279,6 +294,12 @@ def oracle_stream(ctx, n, salt):
             for mut in (True, False):
                 items.append({"kind": "src-reject", "cls": "use-in-own-initialiser", "leak": False,
                               "files": {"/main.sy": rg.self_use_program(ci, ii, mut)}})
+    # function literals inside redundant parentheses (local / global, recursive or not, shadowing a global, blob fields
+    # using self, arguments, nested): the same Lua as without them
+    for ti in range(len(rg.PAREN_FN)):
+        for k in (1, 2):
+            items.append({"kind": "files-pair", "cls": "paren-fn", "leak": False,
+                          "a": {"/main.sy": rg.paren_fn_program(ti, 0)}, "b": {"/main.sy": rg.paren_fn_program(ti, k)}})
     # locals of block expressions (if / elif / else / case arm / case else, nested, with closures, not at the root of
     # the initialiser) that initialise a MODULE GLOBAL: naming the local freshly, like the global it reads, like
     # another global or like the global being defined must give the same Lua; a use of it before its definition, in
@@ -304,7 +325,7 @@ def render_item(it):
         ss, k, b = it["at"]
         ss.insert(k, rg.planted_node(it["p"], ss, b, it["na"]))
         try:
-            return [rg.single(rg.Render(it["na"]).program(it["p"]), True)]
+            return [rg.single(rg.Render(it["na"], fn_parens=it.get("fn_parens", 0)).program(it["p"]), True)]
         finally:
             ss.pop(k)
     if it["kind"] == "files-pair":
@@ -427,7 +448,10 @@ def always(ctx):
                            "globals, nested, not at the root -- so (a) and (b) cover them (planted uses also between the items "
                            "of the module, as a further global); plus the hand-written family of such initialisers: local named "
                            "freshly vs like the global it reads / another global / the global being defined -> identical Lua, "
-                           "use before the definition / in another branch / in another global / in start -> rejected"}
+                           "use before the definition / in another branch / in another global / in start -> rejected; (f) every function "
+                           "literal of a generated program, and of a hand-written family (recursive local / global definitions, "
+                           "shadowing a global, blob fields using self, arguments, nested closures), inside 1-2 redundant "
+                           "parentheses -> the same Lua as without them; a third of the planted uses are rendered that way"}
 
 
 def describe(it, v):
